@@ -57,7 +57,10 @@ Explaining(enc(_), b, devs) ==
   IN IF hit = <<>> THEN "none" ELSE ToString(hit[1])
 
 DerVerdict(env, T, v, o) ==
-  IF o.enc.st # "ok" THEN V("DER", "skip", "no encoding")
+  IF o.enc.st # "ok"
+  THEN (IF Admits(env, T, v)
+        THEN V("DER", "reject", ExcKey("enc", o.enc) \o " applicable:" \o ToString(RtApplicable(env, T, v, o.codec)))
+        ELSE V("DER", "skip", "value not admitted and not encoded"))
   ELSE LET b == o.enc.b
            std == DerEnc(env, T, v, {})
            p == ParseTlv(b)
@@ -76,7 +79,10 @@ DerVerdict(env, T, v, o) ==
 (* C05: PER / UPER output is the X.691 encoding                             *)
 
 PerVerdict(env, T, v, o) ==
-  IF o.enc.st # "ok" THEN V("PER", "skip", "no encoding")
+  IF o.enc.st # "ok"
+  THEN (IF Admits(env, T, v)
+        THEN V("PER", "reject", ExcKey("enc", o.enc) \o " applicable:" \o ToString(RtApplicable(env, T, v, o.codec)))
+        ELSE V("PER", "skip", "value not admitted and not encoded"))
   ELSE IF ~Admits(env, T, v) THEN V("PER", "skip", "value not admitted")
   ELSE LET b == o.enc.b
            al == o.codec = "per"
@@ -91,7 +97,10 @@ PerVerdict(env, T, v, o) ==
 (* C06: OER output is the X.696 encoding                                    *)
 
 OerVerdict(env, T, v, o) ==
-  IF o.enc.st # "ok" THEN V("OER", "skip", "no encoding")
+  IF o.enc.st # "ok"
+  THEN (IF Admits(env, T, v)
+        THEN V("OER", "reject", ExcKey("enc", o.enc) \o " applicable:" \o ToString(RtApplicable(env, T, v, o.codec)))
+        ELSE V("OER", "skip", "value not admitted and not encoded"))
   ELSE IF ~Admits(env, T, v) THEN V("OER", "skip", "value not admitted")
   ELSE LET b == o.enc.b
            std == OerEncode(env, T, v, {})
